@@ -35,7 +35,8 @@ META = {
     "pid -> [submission indices] assignments observed (workers that ran >= 2 strategies back to back, in-process path).",
     "assumptions": [
         "'running it alone' = BacktestManager with that single strategy (in-process path) over an identically built "
-        "configuration and data, in a pristine process",
+        "configuration and data, in a pristine process; in half of the cases that record is itself compared with the same "
+        "configuration applied by hand to a bare Actuator (markets with their data, configured wallet, prices, interval)",
         "account history = Strategy.account_status_df as seen in finalize() (for a strategy that raises: the per-bar account "
         "status list up to the bar where it raised); final positions = projection through public accessors "
         "(vmon/drive.py project) + wallet; action list = all fields of every recorded action",
@@ -125,7 +126,7 @@ def gen_case(rng, c, tag):
             elif pattern == "long":
                 sleep[s["name"]] = {str(rng.randrange(bars)): rng.randint(80, 250)}
         runs.append({"threads": t, "order": order, "sleep": sleep})
-    return {"world": world, "strategies": strategies, "hashseed": hashseed, "runs": runs}
+    return {"world": world, "strategies": strategies, "hashseed": hashseed, "runs": runs, "plain": rng.random() < 0.5}
 
 
 # ------------------------------------------------------------------------------------------------ world (any process)
@@ -478,7 +479,7 @@ def worker_main(jobfile):
     config = StrategyConfig(_WORLD.assets, _WORLD.markets)
     data = BacktestData(_WORLD.data, _WORLD.prices)
     bk = BacktestConfig(False, False, _WORLD.interval)
-    if job["mode"] == "solo":
+    if job["mode"] in ("solo", "plain"):
         for spec in job["strategies"]:
             sys.stdout.flush()
             sys.stderr.flush()
@@ -486,7 +487,23 @@ def worker_main(jobfile):
             if pid == 0:  # pristine child: nothing has run in this interpreter yet
                 try:
                     try:
-                        BacktestManager(config, data, [mk(spec, {})], bk, threads=1).run()
+                        if job["mode"] == "solo":
+                            BacktestManager(config, data, [mk(spec, {})], bk, threads=1).run()
+                        else:
+                            # the same configuration applied by hand to a bare Actuator (what "running it alone" means
+                            # without the manager): markets with their data, the configured wallet, prices, interval
+                            from demeter import Actuator
+
+                            act = Actuator()
+                            for m in _WORLD.markets:
+                                act.broker.add_market(m)
+                                m.data = _WORLD.data[m.market_info]
+                            for tok, amt in _WORLD.assets.items():
+                                act.broker.set_balance(tok, amt)
+                            act.strategy = mk(spec, {})
+                            act.set_price(_WORLD.prices)
+                            act.interval = _WORLD.interval
+                            act.run(False)
                     except BaseException as e:  # noqa
                         with open(os.path.join(out, spec["name"] + ".exc.json"), "w") as fh:
                             json.dump({"type": type(e).__name__, "msg": str(e)[:300], "tb": traceback.format_exc()[-1500:]}, fh)
@@ -619,6 +636,30 @@ def one_case(mon, c, case, wanted, scratch):
             e = excs.get(nm, {"type": "?", "msg": "no record and no exception", "tb": ""})
             mon.cls(f"solo/{mix}/{kind[nm]}/framework-raised/{e['type']}")
             mon.note(f"solo-framework-raise/{e['type']}", f"{mix}/{kind[nm]}: {e['msg'][:200]} {e.get('tb', '')[-400:]}")
+    # ---- the manager's single-strategy run against a bare Actuator configured by hand (an independent reading of "alone")
+    if case.get("plain"):
+        outp = os.path.join(scratch, f"c{c}-plain")
+        os.makedirs(outp)
+        rc, tail = _spawn(case, "plain", outp)
+        if rc == 0:
+            plain, _, pexcs = _load(outp, names)
+            for nm in names:
+                if nm in plain and nm in solo:
+                    mon.ev()
+                    mon.hit("plain_actuator_comparisons")
+                    d = _first_diff(plain[nm], solo[nm])
+                    if d is not None:
+                        mon.violation("manager", "single-strategy", f"{d[0]}-differs-from-plain-actuator", f"{mix}/{kind[nm]}",
+                                      f"{nm} ({kind[nm]}) run by the manager on its own differs from the same configuration on a bare "
+                                      f"Actuator: {d[1]}", {"case": case})
+                elif (nm in plain) != (nm in solo):
+                    mon.ev()
+                    mon.violation("manager", "single-strategy", "record-only-on-one-side-vs-plain-actuator", f"{mix}/{kind[nm]}",
+                                  f"{nm}: plain Actuator {'has' if nm in plain else 'has no'} record, manager alone "
+                                  f"{'has' if nm in solo else 'has none'}: {(pexcs.get(nm) or excs.get(nm) or {}).get('msg', '')[:200]}",
+                                  {"case": case})
+        elif rc is None:
+            mon.hit("timeouts")
     # ---- managed variants
     for j in wanted:
         run = dict(case["runs"][j])
